@@ -259,8 +259,11 @@ package ctree
 //@   requires [node-lock-held C10] wheld(t.mu)
 //@   modifies ghost condCalls, ghost delCalls, mapheap(Kids(t))
 //@   invariant 0: [glob-step C09] TreeWf() && t.leafBranch == old(t.leafBranch) && (arr(allLeaves) == 0 || fresh(allLeaves))
+//@     && (retDeletedPaths ==> len(allLeaves) == delCalls - old(delCalls)) && (!retDeletedPaths ==> len(allLeaves) == 0)
 //@   invariant 1: (arr(allLeaves) == 0 || fresh(allLeaves)) && TreeWf() && t.leafBranch == old(t.leafBranch)
+//@     && retDeletedPaths && 0 <= $i && $i <= len(leaves) && len(allLeaves) == delCalls - old(delCalls) - len(leaves) + $i
 //@   invariant 2: TreeWf() && t.leafBranch == old(t.leafBranch) && (arr(allLeaves) == 0 || fresh(allLeaves))
+//@     && len(allLeaves) == delCalls - old(delCalls)
 //@   assert at call param condition#0: [leaf-selected-as-by-query C09] IsLeaf(t) && len(subpath) == 0 && arg0 == t.leafBranch
 //@   assert at call param f#0: [callback-with-the-deleted-value C09 C03] IsLeaf(t) && arg0 == t.leafBranch
 //@   assert at builtin delete#0: [unlink-only-deletable-child C09] del && arg1 == k
@@ -270,6 +273,7 @@ package ctree
 //@   ensures [no-such-child-deletes-nothing C09] old(IsBranch(t)) && len(subpath) > 0 && subpath[0] != "*" && !old(has(Kids(t), subpath[0])) ==> !res0 && len(res1) == 0
 //@   ensures [through-a-leaf-deletes-nothing C09] !old(IsBranch(t)) && len(subpath) > 0 && !(len(subpath) == 1 && subpath[0] == "*") ==> !res0 && len(res1) == 0 && delCalls == old(delCalls)
 //@   ensures [empty-node-deletes-nothing C09] old(t.leafBranch) == nil ==> !res0 && len(res1) == 0 && delCalls == old(delCalls) && condCalls == old(condCalls)
+//@   ensures [one-returned-path-per-deleted-leaf C09] (retDeletedPaths ==> len(res1) == delCalls - old(delCalls)) && (!retDeletedPaths ==> len(res1) == 0)
 //@   ensures [leaf-deleted-iff-condition C09 C02] old(IsLeaf(t)) && (len(subpath) == 0 || (len(subpath) == 1 && subpath[0] == "*")) ==> condCalls == old(condCalls) + 1 && (res0 <==> delCalls == old(delCalls) + 1)
 
 // The always-true condition and the do-nothing callback of the plain deletes.
@@ -303,9 +307,11 @@ package ctree
 //@   assert at call (*Tree).internalDelete#0: [delete-step-on-the-root-under-its-write-lock C09 C10] wheld(t.mu) && arg0 == t && arg1 == subpath && arg4
 //@   ensures [tree-stays-wf] TreeWf()
 //@   ensures [empty-tree-deletes-nothing C09] old(t.leafBranch) == nil ==> len(res0) == 0 && t.leafBranch == nil
+//@   ensures [one-returned-path-per-deleted-leaf C09] len(res0) == delCalls - old(delCalls)
 
 //@ func (*Tree).Delete
 //@   props C09 C14 C12
 //@   requires t != nil && TreeWf()
 //@   modifies ghost condCalls, ghost delCalls, mapheap(Kids(t)), t.leafBranch
 //@   ensures [tree-stays-wf] TreeWf()
+//@   ensures [one-returned-path-per-deleted-leaf C09] len(res0) == delCalls - old(delCalls)
